@@ -45,6 +45,8 @@ type c16env struct {
 	adds   map[string][]time.Duration // per id: the virtual instants at which Add was CALLED
 	addRet map[string][]time.Duration // per id: the virtual instants at which those Adds RETURNED (call order)
 	maxDup int
+	// pendingAtEnd: PendingCount when the observation ends
+	pendingAtEnd int
 }
 
 func (e *c16env) since() time.Duration { return vtime.Now().Sub(e.start) }
@@ -63,6 +65,20 @@ func (e *c16env) addAs(id, schedule, tag string) {
 	slot := len(e.adds[id]) - 1
 	e.addRet[id] = append(e.addRet[id], -1)
 	if err := e.c.Add(e.ctx, id, schedule, e.fn(tag)); err != nil {
+		panic(err)
+	}
+	e.addAt[id] = e.since()
+	e.addRet[id][slot] = e.since()
+}
+
+// addSlow is addAs with a callback that takes d of virtual time (its firing is
+// recorded when it starts).
+func (e *c16env) addSlow(id, schedule, tag string, d time.Duration) {
+	e.adds[id] = append(e.adds[id], e.since())
+	slot := len(e.adds[id]) - 1
+	e.addRet[id] = append(e.addRet[id], -1)
+	f := e.fn(tag)
+	if err := e.c.Add(e.ctx, id, schedule, func(t time.Time) error { f(t); vtime.Sleep(d); return nil }); err != nil {
 		panic(err)
 	}
 	e.addAt[id] = e.since()
@@ -113,6 +129,9 @@ type c16scn struct {
 	// Expect computes violations from the environment after the run
 	Expect func(e *c16env) []string
 }
+
+// c16Totals: how long a scenario is observed (default 4 virtual seconds).
+var c16Totals = map[string]time.Duration{"slow-callbacks-replace-then-rem": 8 * time.Second}
 
 func countFires(e *c16env, id string) (n int, times []time.Duration) {
 	for _, f := range e.fires {
@@ -238,6 +257,36 @@ func c16Scns() []c16scn {
 		}, func(e *c16env) []string {
 			return append(once("j1", 500*time.Millisecond)(e), once("j2", 700*time.Millisecond)(e)...)
 		}},
+		{"slow-callbacks-replace-then-rem", []func(e *c16env){
+			func(e *c16env) {
+				// every callback outlasts the period: the replaced job's function is still
+				// running when its replacement fires, and the Rem arrives while the
+				// replacement's function runs
+				e.addSlow("j1", "* * * * * * *", "j1-first", 1500*time.Millisecond)
+				vtime.Sleep(1200 * time.Millisecond)
+				e.addSlow("j1", "* * * * * * *", "j1-second", 1500*time.Millisecond)
+				vtime.Sleep(1500 * time.Millisecond)
+				e.rem("j1")
+			},
+		}, func(e *c16env) []string {
+			var bad []string
+			for _, tag := range []string{"j1-first", "j1-second"} {
+				_, ts := countFires(e, tag)
+				after := 0
+				for _, t := range ts {
+					if t > e.remAt["j1"] {
+						after++
+					}
+				}
+				if after > 1 {
+					bad = append(bad, fmt.Sprintf("removed-recurring-job-fired-again:%s fired %d times after Rem returned at +%v %v", tag, after, e.remAt["j1"], ts))
+				}
+			}
+			if e.pendingAtEnd != 0 {
+				bad = append(bad, fmt.Sprintf("removed-job-still-pending:%d jobs are pending %v after the only id was removed", e.pendingAtEnd, 8*time.Second-e.remAt["j1"]))
+			}
+			return bad
+		}},
 		{"replace-recurring-by-one-shot", []func(e *c16env){
 			func(e *c16env) {
 				e.add("j1", "* * * * * * *")
@@ -287,8 +336,13 @@ func c16Scenario(scn c16scn, bound int) *lib.SchedScenario {
 			r.Go(func() { e.observe(); wg.Done() })
 			wg.Wait()
 			// let the remaining time pass, then stop the loop
-			vtime.Sleep(4*time.Second - e.since())
+			total := c16Totals[scn.Name]
+			if total == 0 {
+				total = 4 * time.Second
+			}
+			vtime.Sleep(total - e.since())
 			e.observe()
+			e.pendingAtEnd = c.PendingCount()
 			c.Kill(ctx)
 			r.Record("fires=%v", e.fires)
 		},
@@ -340,7 +394,7 @@ func init() {
 	lib.Register(&lib.Check{
 		ID:    "C16",
 		Level: "model_checking",
-		Rule: "schedule exploration with virtual time (deviation bound 2 quick / 3 thorough; an early timer landing is a deviation) of the in-memory cron's loop goroutine, firing goroutines and 1-2 clients over 9 scenarios (one-shots, removal of the head job with a later job behind it, concurrent replace of one id, add+rem before due, concurrent add/rem, recurring then rem, suspend/resume, pause, replace recurring by one-shot), horizon 4 virtual seconds; " +
+		Rule: "schedule exploration with virtual time (deviation bound 2 quick / 3 thorough; an early timer landing is a deviation) of the in-memory cron's loop goroutine, firing goroutines and 1-2 clients over 10 scenarios (one-shots, callbacks that outlast their period with a replace and a Rem arriving while they run, removal of the head job with a later job behind it, concurrent replace of one id, add+rem before due, concurrent add/rem, recurring then rem, suspend/resume, pause, replace recurring by one-shot), horizon 4 virtual seconds; " +
 			"states = distinct observed outcomes, traces = schedules executed",
 		Assumptions: []string{
 			"callbacks are instantaneous in virtual time; a callback's firing time is read from the virtual clock inside the callback",
